@@ -7,8 +7,8 @@
 //! component keys, byte equality; and `lookup_route` is asked for each
 //! endpoint's own witness request at that version.
 use dropshot::{
-    ApiDescription, ApiEndpoint, ApiEndpointVersions, HttpError, HttpResponseHeaders, HttpResponseOk, Path, Query,
-    RequestContext,
+    ApiDescription, ApiEndpoint, ApiEndpointVersions, EndpointTagPolicy, HttpError, HttpResponseHeaders,
+    HttpResponseOk, Path, Query, RequestContext, TagConfig, TagDetails,
 };
 use dsverif::c05::mk_range;
 use dsverif::dynschema::{set_slot, set_slot_json, Dyn, Slot};
@@ -37,6 +37,12 @@ struct Case {
     /// response slot per endpoint (0..NSLOTS)
     resp: Vec<usize>,
     slots: Vec<SlotSpec>,
+    /// tags per endpoint (ApiEndpoint::tag), and the names the tag
+    /// configuration defines
+    #[serde(default)]
+    ep_tags: Vec<Vec<String>>,
+    #[serde(default)]
+    cfg_tags: Vec<String>,
 }
 
 const NSLOTS: usize = 4;
@@ -67,7 +73,7 @@ async fn p3(_r: RequestContext<()>, _p: Path<Dyn<0>>) -> Result<HttpResponseOk<D
     Ok(HttpResponseOk(Dyn(Value::Null)))
 }
 
-fn make_endpoint(chain: &[Version], e: &EpSpec, resp: usize) -> ApiEndpoint<()> {
+fn make_endpoint(chain: &[Version], e: &EpSpec, resp: usize, tags: &[String]) -> ApiEndpoint<()> {
     let range = mk_range(chain, &e.range).expect("constructible range");
     let method = Method::from_bytes(e.method.as_bytes()).expect("method token");
     let vars = template_vars(&e.path);
@@ -99,14 +105,28 @@ fn make_endpoint(chain: &[Version], e: &EpSpec, resp: usize) -> ApiEndpoint<()> 
             _ => ApiEndpoint::new(e.id.clone(), p3, method, ct, &e.path, range),
         }
     };
-    ep.visible(e.visible)
+    let mut ep = ep.visible(e.visible);
+    for t in tags {
+        ep = ep.tag(t);
+    }
+    ep
 }
 
-fn build(chain: &[Version], eps: &[EpSpec], resp: &[usize], order: &[usize]) -> Result<ApiDescription<()>, String> {
+fn build(c: &Case, chain: &[Version], order: &[usize]) -> Result<ApiDescription<()>, String> {
+    let (eps, resp) = (&c.eps, &c.resp);
     catch(|| {
         let mut api = ApiDescription::new();
+        if !c.cfg_tags.is_empty() {
+            api = api.tag_config(TagConfig {
+                allow_other_tags: true,
+                policy: EndpointTagPolicy::Any,
+                tags: c.cfg_tags.iter().map(|t| (t.clone(), TagDetails::default())).collect(),
+            });
+        }
+        let none = vec![];
         for &i in order {
-            api.register(make_endpoint(chain, &eps[i], resp[i])).map_err(|e| e.to_string()).unwrap();
+            let tags = c.ep_tags.get(i).unwrap_or(&none);
+            api.register(make_endpoint(chain, &eps[i], resp[i], tags)).map_err(|e| e.to_string()).unwrap();
         }
         api
     })
@@ -300,8 +320,8 @@ fn exec(c: &Case) -> Option<Line> {
     let chain: Vec<Version> = c.chain.iter().map(|s| Version::parse(s).unwrap()).collect();
     install_slots(&c.slots);
     let order1: Vec<usize> = (0..c.eps.len()).collect();
-    let api1 = build(&chain, &c.eps, &c.resp, &order1).ok()?;
-    let api2 = build(&chain, &c.eps, &c.resp, &c.order2).ok()?;
+    let api1 = build(c, &chain, &order1).ok()?;
+    let api2 = build(c, &chain, &c.order2).ok()?;
     let mut per_version = vec![];
     let mut coq_obs = vec![];
     let mut nops = 0;
@@ -326,11 +346,23 @@ fn exec(c: &Case) -> Option<Line> {
         };
         let j: Value = serde_json::from_slice(&b1).expect("document is JSON");
         let mut ops: Vec<(String, String, String)> = vec![];
+        let mut optags: Vec<(String, Vec<String>)> = vec![];
+        let strs = |v: Option<&Value>| -> Vec<String> {
+            v.and_then(|t| t.as_array())
+                .map(|a| a.iter().map(|x| x.as_str().unwrap_or("").to_string()).collect())
+                .unwrap_or_default()
+        };
+        let doc_tags: Vec<String> = j
+            .get("tags")
+            .and_then(|t| t.as_array())
+            .map(|a| a.iter().map(|x| x.get("name").and_then(|n| n.as_str()).unwrap_or("").to_string()).collect())
+            .unwrap_or_default();
         if let Some(paths) = j.get("paths").and_then(|p| p.as_object()) {
             for (p, item) in paths {
                 if let Some(item) = item.as_object() {
                     for (m, op) in item {
                         let id = op.get("operationId").and_then(|x| x.as_str()).unwrap_or("").to_string();
+                        optags.push((id.clone(), strs(op.get("tags"))));
                         ops.push((p.clone(), m.to_uppercase(), id));
                     }
                 }
@@ -352,12 +384,14 @@ fn exec(c: &Case) -> Option<Line> {
         }
         nops += ops.len();
         nrefs += refs.len();
-        per_version.push(json!({"ops": ops, "refs": refs, "keys": keys, "same_perm": b1 == b2, "same_twice": b1 == b1b}));
+        per_version.push(json!({"ops": ops, "refs": refs, "keys": keys, "tags": doc_tags, "same_perm": b1 == b2, "same_twice": b1 == b1b}));
         coq_obs.push(format!(
-            "(DObs {} {} {} {} {})",
+            "(DObs {} {} {} {} {} {} {})",
             g_list(&ops, |(p, m, i)| format!("({},{},{})", g_str(p), g_str(m), g_str(i))),
             g_list(&refs, |r| g_str(r)),
             g_list(&keys, |r| g_str(r)),
+            g_list(&doc_tags, |r| g_str(r)),
+            g_list(&optags, |(i, ts)| format!("({},{})", g_str(i), g_list(ts, |t| g_str(t)))),
             g_bool(b1 == b2),
             g_bool(b1 == b1b)
         ));
@@ -376,9 +410,14 @@ fn exec(c: &Case) -> Option<Line> {
         }
         found.push(row);
     }
+    let none: Vec<String> = vec![];
+    let eptags: Vec<(String, &Vec<String>)> =
+        c.eps.iter().enumerate().map(|(i, e)| (e.id.clone(), c.ep_tags.get(i).unwrap_or(&none))).collect();
     let coq = format!(
-        "(CDoc {} {} {})",
+        "(CDoc {} {} {} {} {})",
         g_list(&c.eps, g_ep),
+        g_list(&eptags, |(i, ts)| format!("({},{})", g_str(i), g_list(ts, |t| g_str(t)))),
+        g_list(&c.cfg_tags, |t| g_str(t)),
         g_list(&coq_obs, |s| s.clone()),
         g_list(&found, |row| g_list(row, |o| g_opt(o, |s| g_str(s))))
     );
@@ -392,6 +431,13 @@ fn exec(c: &Case) -> Option<Line> {
             format!("eps:{}", c.eps.len()),
             format!("hidden:{}", hidden),
             format!("refs:{}", if nrefs == 0 { "none" } else if nrefs < 20 { "some" } else { "many" }),
+            format!("tags:{}", {
+                let mut all: Vec<&String> = c.ep_tags.iter().flatten().chain(c.cfg_tags.iter()).collect();
+                all.sort();
+                all.dedup();
+                let fold = all.iter().map(|t| t.to_lowercase()).collect::<std::collections::HashSet<_>>().len();
+                if all.is_empty() { "none" } else if fold < all.len() { "case-variants" } else { "plain" }
+            }),
         ],
         nontrivial: c.eps.len() >= 2,
     })
@@ -459,7 +505,24 @@ fn gen(opts: &Opts) -> Vec<Case> {
         }
         let resp: Vec<usize> = eps.iter().map(|_| rng.below(NSLOTS)).collect();
         let slots: Vec<SlotSpec> = (0..NSLOTS).map(|k| gen_slot(&mut rng, k)).collect();
-        out.push(Case { chain: chain.clone(), eps, order2, resp, slots });
+        // tags: a pool with names that differ only in letter case, a prefix
+        // pair, a non-ASCII name and the empty name; some of them configured
+        const POOL: [&str; 12] =
+            ["disks", "Disks", "DISKS", "a", "A", "ab", "a-b", "z", "Z", "\u{e9}t\u{e9}", "Zebra", ""];
+        let (ep_tags, cfg_tags) = if rng.chance(1, 4) {
+            (vec![], vec![])
+        } else {
+            let k = rng.range(2, POOL.len());
+            let start = rng.below(POOL.len());
+            let pool: Vec<String> = (0..k).map(|i| POOL[(start + i) % POOL.len()].to_string()).collect();
+            let ep_tags: Vec<Vec<String>> =
+                eps.iter().map(|_| (0..rng.below(4)).map(|_| pool[rng.below(pool.len())].clone()).collect()).collect();
+            let mut cfg: Vec<String> = (0..rng.below(3)).map(|_| POOL[rng.below(POOL.len())].to_string()).collect();
+            cfg.sort();
+            cfg.dedup();
+            (ep_tags, cfg)
+        };
+        out.push(Case { chain: chain.clone(), eps, order2, resp, slots, ep_tags, cfg_tags });
     }
     out
 }
